@@ -189,7 +189,7 @@ def match_link_image(string, offset, delimiter, root=None):
                     match.title_delimiter = string[title_start] if title_start < title_end else None
                     return match
     # footnote link
-    if follows(string, offset, '['):
+    if follows(string, offset, '[') and is_link_label(string, offset + 1):
         # full footnote link: [label][dest]
         result = match_link_label(string, offset + 1, root)
         if result:
@@ -324,6 +324,23 @@ def match_link_label(string, offset, root=None):
         elif escaped:
             escaped = False
     return None
+
+
+def is_link_label(string, offset):
+    """
+    Whether a pair of brackets without unescaped brackets inside begins at `offset`.
+    """
+    escaped = False
+    for c in string[offset + 1:]:
+        if c == '\\' and not escaped:
+            escaped = True
+        elif c == ']' and not escaped:
+            return True
+        elif c == '[' and not escaped:
+            return False
+        elif escaped:
+            escaped = False
+    return False
 
 
 def get_link_label(text, root):
